@@ -92,6 +92,8 @@ class H:
                 raise SourceError(f"anchor edgegraph.structure.{n} is not a class")
         self.w.snapshot()
         self._n = 0
+        self.actual = discover_fields(self)     # role -> actual field name in the tree under analysis
+        self.w.restore()
 
     def cls(self, name):
         if name in self.sym and isinstance(self.sym[name], ClassV):
@@ -205,6 +207,58 @@ class H:
     def const(self, dotted):
         v = self.w.get(dotted)
         return v
+
+
+CANON = {"links": "_links", "ends": "_vertices", "members": "_vertices", "universes": "_universes", "memo": "_Vertex__qa_nb_cache", "laws": "_laws", "applies_to": "_applies_to"}
+
+
+def discover_fields(h):
+    """Find the private state fields by ROLE (which list of a vertex receives a new edge, which list of an edge holds its ends,
+    ...) so that a tree that merely renames them is analysed like the original.  Roles that cannot be identified keep their
+    canonical name (an anchor check later ends the run with exit 2 if that field does not exist)."""
+    from . import ae
+    ae.FIELD_ALIASES.clear()
+    I, S = h.I, h.S
+    actual = dict(CANON)
+    try:
+        a, b = I.call(S["Vertex"], [], {}), I.call(S["Vertex"], [], {})
+        e = I.call(S["DirectedEdge"], [a, b], {})
+        u = I.call(S["Universe"], [], {"vertices": Seq([a], "list")})
+
+        def seq_with(o, x):
+            return [k for k, v in o.fields.items() if isinstance(v, Seq) and any(i is x for i in v.items)]
+        for role, cands in (("links", seq_with(a, e)), ("ends", seq_with(e, a)), ("members", seq_with(u, a)), ("universes", seq_with(a, u))):
+            if len(cands) == 1:
+                actual[role] = cands[0]
+        laws = [(k, v) for k, v in u.fields.items() if isinstance(v, Obj) and v.cls.name.endswith("Laws")]
+        if len(laws) == 1:
+            actual["laws"] = laws[0][0]
+            back = [k for k, v in laws[0][1].fields.items() if v is u]
+            if len(back) == 1:
+                actual["applies_to"] = back[0]
+        try:
+            helpers = h.w.load("edgegraph.traversal.helpers")
+            S["Vertex"].dict["NEIGHBOR_CACHING"] = True
+            before = {k for k, v in a.fields.items() if isinstance(v, DictV) and v.pairs}
+            I.call(helpers.globals["neighbors"], [a], {})
+            memo = [k for k, v in a.fields.items() if isinstance(v, DictV) and v.pairs and k not in before]
+            if len(memo) == 1:
+                actual["memo"] = memo[0]
+        except (Raised, Unknown, KeyError, SourceError):
+            pass
+    except (Raised, Unknown, KeyError):
+        return actual
+    if actual != CANON:
+        vert_alias = {CANON[r]: actual[r] for r in ("links", "universes", "memo") if actual[r] != CANON[r]}
+        uni_alias = dict(vert_alias)
+        for r in ("members", "laws"):
+            if actual[r] != CANON[r]:
+                uni_alias[CANON[r]] = actual[r]
+        link_alias = {CANON[r]: actual[r] for r in ("ends", "universes") if actual[r] != CANON[r]}
+        laws_alias = {CANON[r]: actual[r] for r in ("applies_to", "universes") if actual[r] != CANON[r]}
+        lawcls = next((v.cls for k, v in u.fields.items() if isinstance(v, Obj) and v.cls.name.endswith("Laws")), None)
+        ae.FIELD_ALIASES.extend([(S["Universe"], uni_alias), (S["Link"], link_alias)] + ([(lawcls, laws_alias)] if lawcls is not None else []) + [(S["Vertex"], vert_alias), (S["BaseObject"], {"_universes": actual["universes"]} if actual["universes"] != "_universes" else {})])
+    return actual
 
 
 def show(v):
